@@ -226,7 +226,7 @@ def run_each(exe, lines, timeout):
     import concurrent.futures
     if not lines:
         return []
-    with concurrent.futures.ThreadPoolExecutor(min(16, len(lines))) as ex:
+    with concurrent.futures.ThreadPoolExecutor(min(12, len(lines))) as ex:
         return [r[0] for r in ex.map(lambda l: vlib.run_lines(exe, [l], timeout=timeout), lines)]
 
 
